@@ -1385,9 +1385,26 @@ class Dyn(Calls):
     def bi_sorted(self, args, kwargs, node):
         """sorted(c) of a duplicate-free collection of strings (set, dict keys, duplicate-free list): a duplicate-free list with the same
         members, strictly increasing."""
-        if kwargs or len(args) != 1 or not isinstance(args[0], VCont):
+        keyfn = kwargs.get("key")
+        if len(args) == 1 and isinstance(args[0], VObj) and getattr(self.reg, "list_terms", False) and not self.spec_mode:
+            args = [self.obj_as_list(args[0])]       # an opaque collection: sorted() consumes its iteration
+        if (set(kwargs) - {"key"}) or len(args) != 1 or not isinstance(args[0], VCont):
             raise Unsupported("sorted(...) of this shape")
         c = self.cont(args[0])
+        if keyfn is not None and isinstance(c, ListV) and c.idx is None and getattr(c, "term", None) is not None:
+            # sorted(<sequence value>, key=f): a permutation of the source; as a value it is sortedbyl(f, <source value>) -- NOT a function of the
+            # source's multiset unless f separates its elements (ties keep the source order), so nothing is known about it under another
+            # iteration order.  A failed obligation that rests on this is only reported when it reproduces natively.
+            arr = self.fresh("sortedby", c.arr.sort())
+            out = ListV(c.ty, arr, c.n)
+            kid = keyfn.name if isinstance(keyfn, VBuiltin) else (ast.dump(keyfn.node) if isinstance(keyfn, VLambda) else repr(keyfn))
+            fkey = z3.Const("sortkey_" + str(abs(hash(kid)) % 10**8), ObjSort)
+            out.term = z3.Function("sortedbyl", ObjSort, ObjSort, ObjSort)(fkey, c.term)
+            self.uninterpreted_sort_key = True
+            self.notes.append("sorted(..., key=%s) of a sequence value: ties keep the source's iteration order; the result is an uninterpreted permutation" % (getattr(keyfn, "name", "<lambda>")))
+            return self.new_box(out)
+        if keyfn is not None and not (isinstance(c, SetV) and isinstance(c.ty.e, TObj) and isinstance(keyfn, VLambda)):
+            raise Unsupported("sorted(..., key=...) of this shape")
         if isinstance(c, EmptyV):
             return self.new_box(EmptyV("list"))
         if isinstance(c, DictV):
@@ -1410,8 +1427,27 @@ class Dyn(Calls):
         if isinstance(c, SetV) and isinstance(ety, TObj):
             # sorted(set of objects) (objects ordered by their own __lt__): a duplicate-free list of exactly the members whose order is a
             # function of the SET (canonical_order of the membership), provided the ordering is total on the members (stated by the caller)
+            ident = getattr(self.reg, "set_identity_attr", None)
+            if ident is not None and not self.spec_mode:
+                # The result is a function of the SET only if the sort order is total on its members: ties are left in the set's iteration
+                # order (hash-seed dependent).  Members of a set are pairwise different under the elements' own __eq__ -- identity attribute
+                # `ident` (declared by the contract module from the class's __eq__/__hash__, which are proved separately).
+                a_, b_ = self.fresh_obj("sort_a"), self.fresh_obj("sort_b")
+                ia, ib = self.get_attr(VObj(a_), ident), self.get_attr(VObj(b_), ident)
+                hyp = z3.And(c.mem[a_], c.mem[b_], z3.Not(self.equal(ia, ib)))
+                if keyfn is None:
+                    order_attr = getattr(self.reg, "set_order_attr", ident)
+                    goal = z3.Not(self.equal(self.get_attr(VObj(a_), order_attr), self.get_attr(VObj(b_), order_attr)))
+                else:
+                    ka, kb = self.call_lambda(keyfn, [VObj(a_)], {}), self.call_lambda(keyfn, [VObj(b_)], {})
+                    goal = z3.Not(self.equal(ka, kb))
+                self.oblige("sort-order-is-total-on-the-set-members", z3.Implies(hyp, goal), kind="determinism",
+                            info={"clause": "sorted(<set>): two different members never compare equal under the sort key (otherwise their relative order is the set's iteration order)"})
+                self.assume(z3.Implies(hyp, goal))
+            elif keyfn is not None:
+                raise Unsupported("sorted(set, key=...) without a declared identity attribute of the elements")
             A = z3.ArraySort(ObjSort, z3.BoolSort())
-            arr = z3.Function("canonical_order", A, z3.ArraySort(z3.IntSort(), ObjSort))(c.mem)
+            arr = z3.Function("canonical_order" if keyfn is None else "canonical_order_%d" % (abs(hash(ast.dump(keyfn.node))) % 10**8), A, z3.ArraySort(z3.IntSort(), ObjSort))(c.mem)
             n = z3.Function("cardinality", A, z3.IntSort())(c.mem)
             idx = z3.Function("canonical_position", A, z3.ArraySort(ObjSort, z3.IntSort()))(c.mem)
             self.assume(n >= 0)
